@@ -36,7 +36,7 @@ from .values import (NONE, V, VBool, VChunks, VClass, VDict, VFunc, VInt, VModul
 STDLIB_CONSTS = {
     "os.SEEK_SET": 0, "os.SEEK_CUR": 1, "os.SEEK_END": 2, "io.SEEK_SET": 0, "io.SEEK_CUR": 1, "io.SEEK_END": 2,
     "os.O_RDONLY": 0, "os.O_WRONLY": 1, "os.O_RDWR": 2, "os.O_CREAT": 64, "os.O_EXCL": 128, "os.O_TRUNC": 512, "os.O_APPEND": 1024,
-    "stat.S_IFMT": 0o170000, "stat.S_IFDIR": 0o040000, "stat.S_IFREG": 0o100000, "stat.S_IFLNK": 0o120000,
+    "stat.S_IFDIR": 0o040000, "stat.S_IFREG": 0o100000, "stat.S_IFLNK": 0o120000,
     "sys.maxsize": 2 ** 63 - 1, "os.name": "posix", "sys.platform": "linux", "os.sep": "/",
 }
 
